@@ -355,11 +355,11 @@ func Run(o *core.Options) int {
 	x := &runner{r}
 	all := e2.ValidModels(ref.Family(ref.FamilyOpts{Conds: true}))
 	reps := ref.Representatives(all, 1, o.Seed)
-	stride, k3stride, k3cap := 2, 0, 0
+	stride, k3stride, k3cap := 8, 0, 0
 	main := reps
 	if o.Thorough() {
-		main = ref.Representatives(all, 4, o.Seed)
-		stride, k3stride, k3cap = 1, 8, 4000
+		main = ref.Representatives(all, 2, o.Seed)
+		stride, k3stride, k3cap = 1, 24, 2000
 	}
 	for _, a := range o.Args { // development override: "stride=N"
 		if strings.HasPrefix(a, "cpuprofile=") {
@@ -367,9 +367,12 @@ func Run(o *core.Options) int {
 			_ = pprof.StartCPUProfile(f)
 			defer pprof.StopCPUProfile()
 		}
-		var n int
+		var n, m int
 		if _, err := fmt.Sscanf(a, "stride=%d", &n); err == nil {
 			stride = n
+		}
+		if _, err := fmt.Sscanf(a, "k3=%d,%d", &n, &m); err == nil {
+			k3stride, k3cap = n, m
 		}
 	}
 	if !o.Thorough() {
@@ -379,7 +382,12 @@ func Run(o *core.Options) int {
 	r.Set("main_sweep_models", len(main))
 	r.Set("main_sweep_class_stride", stride)
 	r.Set("max_tuples", 2)
-	x.sweep("main", main, ref.DefaultUniverse(), 2, 1, 0)
+	if !o.Thorough() {
+		r.Set("bound_note", fmt.Sprintf("quick runs every %d-th signature class of the family (thorough: all classes, 2 models per class, plus |T|=3 on every 24th class capped at 2000 worlds per model)", stride))
+	}
+	if stride <= len(reps) {
+		x.sweep("main", main, ref.DefaultUniverse(), 2, 1, 0)
+	}
 	if k3stride > 0 {
 		k3 := every(reps, k3stride)
 		r.Set("k3_sweep_models", len(k3))
